@@ -181,8 +181,18 @@ def zmat(payload):
         try:
             spec = case['spec']
             r['spec'] = spec
-            m = gen.build(dict(spec, sources=[], loads=[]))
+            rng_ = random.Random(case.get('seed', 0))
+            pre = rng_.choice([None, None, 100.0, 0.01, 10.0, 0.1, 2.0])
+            if pre is None:
+                m = gen.build(dict(spec, sources=[], loads=[]))
+            else:
+                # the object has computed a matrix at another frequency before (a sweep step): thin / thick wire limits,
+                # wave number and everything else derived from the frequency must follow the new frequency
+                m = gen.build(dict(spec, sources=[], loads=[], f=spec['f'] * pre))
+                m.compute_impedance_matrix()
+                m.f = spec['f']
             o = facts(m)
+            o['prehistory'] = pre
             m.compute_impedance_matrix()
             Z = np.array(m.Z)
             o['Z'] = [[hxc(v) for v in row] for row in Z]
